@@ -56,6 +56,7 @@ type Hist struct {
 	Prefix  bool      `json:"prefix"`
 	Prune   bool      `json:"prune"`
 	LevelDB bool      `json:"leveldb"`
+	Mem     bool      `json:"mem"` // last batch through the Tree API; "cons" probes run on the UNSAVED tree
 	Batches [][]KV    `json:"batches"`
 	Probes  []ProbeIn `json:"probes"`
 }
@@ -263,6 +264,7 @@ type KVb struct{ k, v []byte }
 var heightCounter int64 // block heights grow monotonically over the whole run (prune mode keeps a package-level maximum)
 
 type env struct {
+	memCons map[string]consRes
 	db    dbm.DB
 	cfg   *mavl.TreeConfig
 	dir   string
@@ -293,8 +295,28 @@ func (e *env) close() {
 
 func (e *env) build(h *Hist) {
 	var root []byte
-	for _, b := range h.Batches {
+	for bi, b := range h.Batches {
 		heightCounter++
+		if h.Mem && bi == len(h.Batches)-1 {
+			// Tree API; proofs are constructed before the tree is saved (mixed persisted / new nodes)
+			t := mavl.NewTree(e.db, true, e.cfg)
+			t.SetBlockHeight(heightCounter)
+			if err := t.Load(root); err != nil {
+				panic(err)
+			}
+			for _, kv := range b {
+				t.Set(unhx(kv.K), unhx(kv.V))
+			}
+			e.memCons = map[string]consRes{}
+			for _, p := range h.Probes {
+				if p.Op == "cons" {
+					e.memCons[p.Key] = consOn(t, unhx(p.Key))
+				}
+			}
+			root = t.Save()
+			e.roots = append(e.roots, root)
+			continue
+		}
 		set := &types.StoreSet{StateHash: root, Height: heightCounter}
 		for _, kv := range b {
 			set.KV = append(set.KV, &types.KeyValue{Key: unhx(kv.K), Value: unhx(kv.V)})
@@ -371,7 +393,20 @@ type consRes struct {
 	panicked string
 }
 
+func consOn(t *mavl.Tree, k []byte) (res consRes) {
+	defer func() {
+		if r := recover(); r != nil {
+			res = consRes{panicked: fmt.Sprint(r)}
+		}
+	}()
+	res.value, res.proof = t.ConstructProof(k)
+	return
+}
+
 func safeCons(e *env, root, k []byte) (res consRes) {
+	if r, ok := e.memCons[hx(k)]; ok {
+		return r
+	}
 	defer func() {
 		if r := recover(); r != nil {
 			res = consRes{panicked: fmt.Sprint(r)}
@@ -994,12 +1029,15 @@ func main() {
 	r := hlib.NewRng(opts.Seed)
 	mult := 1
 	if opts.Thorough() {
-		mult = 12
+		mult = 8
 	}
 	cfgOf := func(i int) (bool, bool, bool) { return i%2 == 1, i%4 >= 2, i%7 == 6 }
 	emit := func(kind string, i int, batches [][]KV, pl plan) {
 		p, pr, l := cfgOf(i)
-		h := &Hist{Kind: kind, Prefix: p, Prune: pr, LevelDB: l, Batches: batches}
+		h := &Hist{Kind: kind, Prefix: p, Prune: pr, LevelDB: l, Batches: batches, Mem: i%3 == 0 && len(batches) > 0}
+		if h.Mem {
+			h.Kind = kind + "-mem"
+		}
 		addProbes(r, h, workdir, pl)
 		runHist(o, h, workdir)
 	}
@@ -1007,16 +1045,16 @@ func main() {
 	emit("tiny", 0, nil, plan{proveAll: true, malformedN: 2})
 	emit("tiny", 1, [][]KV{{}}, plan{proveAll: true, malformedN: 2})
 	for i := 0; i < 28*mult; i++ {
-		emit("tiny", i, genBatches(r, r.Range(1, 3), 1, 2), plan{proveAll: true, consN: 2, mutKeys: 1, malformedN: 2})
+		emit("tiny", i, genBatches(r, r.Range(1, 3), 1, 2), plan{proveAll: true, consN: 3, mutKeys: 1, malformedN: 2})
 	}
 	for i := 0; i < 40*mult; i++ {
-		emit("small", i, genBatches(r, r.Range(2, 4), 2, 6), plan{proveAll: true, consN: 2, mutKeys: 1, sampled: true, malformedN: 2})
+		emit("small", i, genBatches(r, r.Range(2, 4), 2, 6), plan{proveAll: true, consN: 3, mutKeys: 1, sampled: true, malformedN: 2})
 	}
 	for i := 0; i < 12*mult; i++ {
-		emit("medium", i, genBatches(r, r.Range(3, 8), 4, 12), plan{proveAll: true, consN: 2, mutKeys: 2, lightMuts: true, malformedN: 1})
+		emit("medium", i, genBatches(r, r.Range(3, 8), 4, 12), plan{proveAll: true, consN: 3, mutKeys: 2, lightMuts: true, malformedN: 1})
 	}
 	for i := 0; i < 2*mult; i++ {
-		emit("large", i, genBatches(r, r.Range(5, 10), 20, 40), plan{proveN: 12, consN: 2, mutKeys: 2, lightMuts: true})
+		emit("large", i, genBatches(r, r.Range(5, 10), 20, 40), plan{proveN: 12, consN: 3, mutKeys: 2, lightMuts: true})
 	}
 	for i := 0; i < 24*mult; i++ {
 		emit("malformed", i, genBatches(r, 1, 1, 4), plan{proveN: 1, malformedN: 14})
